@@ -266,6 +266,10 @@ def harness(grad_kind):
                 ctx.oblige(f"{tag}.C12.seed.owned_not_callers_array.outside_F6", z3.Implies(z3.Not(region), owned), kind="C12.seed", **meta)
             ctx.oblige(f"{tag}.C12.seed.callers_array_unwritten", z3.And(vl[garr.ref] == val0[garr.ref], shp[garr.ref] == shape0[garr.ref], dt[garr.ref] == dtype0[garr.ref]), **meta)
         ctx.oblige(f"{tag}.C12.data_unwritten", vl[dself] == val0[dself], **meta)
+        # a terminal whose own graph was cleared earlier but whose base link lingers is detached from that base, so that the getter
+        # reports the seed stored here rather than a window onto the old base's gradient; a live view keeps its base
+        b0, c0 = H[("Tensor", "_base")][me.ref], H[("Tensor", "_creator")][me.ref]
+        ctx.oblige(f"{tag}.stale_base_link_dropped", cur[("Tensor", "_base")][me.ref] == z3.If(z3.And(b0 != 0, c0 == 0), 0, b0), **meta)
         # sweep
         nb = events.count("_backward")
         has_creator = H[("Tensor", "_creator")][me.ref] != 0
